@@ -265,6 +265,8 @@ pub struct Model {
     pub replica_ok: bool,
     /// the weight history went out of step with ADDRESS_WEIGHT in some way other than a claim's rewrite
     pub stale_unexplained: bool,
+    /// positions third parties opened or expanded for the frontend helper contract: duration -> amount
+    pub gifted_to_helper: BTreeMap<u64, u128>,
 }
 
 fn epoch_info(o: &Obs) -> EpochInfo {
@@ -373,9 +375,15 @@ pub fn global_checks(s: &mut Incent, ctx: &mut Ctx, before: &Obs, after: &Obs, o
                 ctx.fail("C11", "helper_retains_nothing", op, None, format!("{op}: frontend helper holds {} of asset {a} ({})", after.bal[ih][a], s.denom(a)));
             }
         }
+        // the helper owns exactly the positions third parties opened FOR it (it can never close them);
+        // anything more is stake of a depositor that ended up with the helper
         let hp = s.na();
-        if !after.open[hp].is_empty() || !after.closed[hp].is_empty() {
-            ctx.fail("C11", "helper_retains_nothing", "position", None, format!("{op}: the frontend helper itself owns a position"));
+        let mut have: Vec<(u128, u64)> = after.open[hp].iter().map(|p| (p.0, p.1)).collect();
+        have.sort();
+        let mut want: Vec<(u128, u64)> = s.model.gifted_to_helper.iter().map(|(d, a)| (*a, *d)).collect();
+        want.sort();
+        if have != want || !after.closed[hp].is_empty() {
+            ctx.fail("C11", "helper_retains_nothing", "position", None, format!("{op}: the frontend helper itself owns positions {:?} (closed {:?}); third parties opened {:?} for it", have, after.closed[hp], want));
         }
     }
 
@@ -865,8 +873,9 @@ pub fn apply(s: &mut Incent, step: &Step, ctx: &mut Ctx) {
 fn do_position(s: &mut Incent, ctx: &mut Ctx, before: &Obs, actor: usize, open: bool, amount: u128, dur: u64, receiver: Option<usize>, provided: u128, extra: u128, fault: Fault) -> Option<Obs> {
     let op = if open { "open_position" } else { "expand_position" };
     let who = s.actors[actor];
-    let recv = receiver.map(|r| r % s.na()).unwrap_or(actor);
-    let recv_s = s.actors[recv].to_string();
+    // receiver index >= 1000: the frontend helper contract itself (a third party seeds a position for it)
+    let recv = receiver.map(|r| if r >= 1000 && s.helper.is_some() { s.na() } else { r % s.na() }).unwrap_or(actor);
+    let recv_s = pos_accts(s)[recv].clone();
     let lp_native = s.is_native(A_LP);
     let msg = if open {
         incentive::ExecuteMsg::OpenPosition { amount: Uint128::new(amount), unbonding_duration: dur, receiver: receiver.map(|_| recv_s.clone()) }
@@ -913,6 +922,10 @@ fn do_position(s: &mut Incent, ctx: &mut Ctx, before: &Obs, actor: usize, open: 
                 format!("{op} {amount} @ {dur} for {recv_s}: open positions {:?} -> {:?}", strip(&before.open[recv]), strip(&after.open[recv])));
         }
         positions_untouched(s, ctx, before, &after, Some(recv), op);
+        if recv == s.na() && s.helper.is_some() {
+            *s.model.gifted_to_helper.entry(dur).or_insert(0) += amount;
+            ctx.probe("position_opened_for_helper_contract");
+        }
         let mut exc = vec![(i_inc, A_LP), (actor, A_LP)];
         if extra > 0 {
             exc.push((i_inc, A_USDC));
